@@ -475,8 +475,10 @@ _dispatch_transform_from_utf16(dispatch_data_t data, int32_t byteOrder)
 			if ((ch >= 0xd800) && (ch <= 0xdbff)) {
 				// Surrogate pair
 				wch = ((ch - 0xd800u) << 10);
-				if (++i >= max) {
-					// Surrogate byte isn't in this block
+				if (++i >= max || ((i == (max - 1)) && (max > (size / 2)))) {
+					// Surrogate code unit isn't (entirely) in this block: it
+					// is in the next one(s), or it is the code unit that
+					// straddles the end of an odd sized block
 					const void *p;
 					dispatch_data_t range = _dispatch_data_subrange_map(data,
 							&p, offset + (i * 2), 2);
@@ -486,7 +488,7 @@ _dispatch_transform_from_utf16(dispatch_data_t data, int32_t byteOrder)
 					ch = _dispatch_transform_swap_to_host(*(uint16_t *)p,
 							byteOrder);
 					dispatch_release(range);
-					skip += 2;
+					skip += (i >= max) ? 2 : 1;
 				} else {
 					ch = _dispatch_transform_swap_to_host(src[i], byteOrder);
 				}
